@@ -32,6 +32,7 @@ var checks = map[string]func(*ctx){
 	"C15": runC15,
 	"C16": runC16,
 	"C17": runC17,
+	"C18": runC18,
 }
 
 func main() {
